@@ -140,9 +140,7 @@ theorem zsh_args_has_opt_long (n : ZNode) (o : ZArg) (ho : o ∈ n.args) (ht : o
   have hline : ∃ pre suf, (pre ++ (s "--" ++ l ++ s "=[") ++ suf) ∈
       ((n.args.filter fun a => a.takes && !a.positional).flatMap fun o =>
         let help := escapeHelp (o.help.getD [])
-        let vn := o.valueName.getD (s " ")
-        let vc1 := match valueCompletion o with | some v => s ":" ++ vn ++ s ":" ++ v | none => s ":" ++ vn ++ s ": "
-        let vc := (List.replicate o.minVals vc1).flatten
+        let vc := vcOf o
         (o.shortsAll.map fun sh => s "'" ++ conflictsText o ++ starText o ++ s "-" ++ sh ++ s "+[" ++ help ++ s "]" ++ vc ++ s "' \\") ++
         (o.longsAll.map fun l => s "'" ++ conflictsText o ++ starText o ++ s "--" ++ l ++ s "=[" ++ help ++ s "]" ++ vc ++ s "' \\")) := by
     refine ⟨s "'" ++ conflictsText o ++ starText o, ?_, ?_⟩
@@ -160,6 +158,48 @@ theorem zsh_args_has_opt_long (n : ZNode) (o : ZArg) (ho : o ∈ n.args) (ht : o
     ((if (writeFlagsOf n.args).isEmpty then [] else [writeFlagsOf n.args]) ++ (if (writePositionalsOf n).isEmpty then [] else [writePositionalsOf n]) ++
       (if n.subs.isEmpty then [] else [s "\":: :_" ++ uu n.binName ++ s "_commands\" \\", s "\"*::: :->" ++ n.name ++ s "\" \\"]) ++ [s "&& ret=0"]) h1
   simpa [List.append_assoc] using this
+
+/-- the value part of an option's spec carries the option's value completion (its possible values), whether the value
+is mandatory, repeated or optional (the latter after the `fix:` for finding F24) -/
+theorem zsh_vc_has_completion (o : ZArg) (v : Str) (h : valueCompletion o = some v) : v <:+: vcOf o := by
+  unfold vcOf
+  simp only [h]
+  split
+  · exact ⟨s ":" ++ (s ":" ++ o.valueName.getD (s " ") ++ s ":"), [], by simp [List.append_assoc]⟩
+  · next hm =>
+    cases hn : o.minVals with
+    | zero => simp [hn] at hm
+    | succ k =>
+      rw [List.replicate_succ, List.flatten_cons]
+      exact ⟨s ":" ++ o.valueName.getD (s " ") ++ s ":", (List.replicate k (s ":" ++ o.valueName.getD (s " ") ++ s ":" ++ v)).flatten, by simp [List.append_assoc]⟩
+
+/-- the whole spec line of a value-taking option - name, help and value part - is in its level's spec -/
+theorem zsh_args_has_opt_spec (n : ZNode) (o : ZArg) (ho : o ∈ n.args) (ht : o.takes = true) (hp : o.positional = false)
+    (l : Str) (hl : l ∈ o.longsAll) :
+    (s "--" ++ l ++ s "=[" ++ escapeHelp (o.help.getD []) ++ s "]" ++ vcOf o) <:+: getArgsOf n := by
+  have hm : (s "'" ++ conflictsText o ++ starText o ++ s "--" ++ l ++ s "=[" ++ escapeHelp (o.help.getD []) ++ s "]" ++ vcOf o ++ s "' \\") ∈
+      ((n.args.filter fun a => a.takes && !a.positional).flatMap fun o =>
+        let help := escapeHelp (o.help.getD [])
+        let vc := vcOf o
+        (o.shortsAll.map fun sh => s "'" ++ conflictsText o ++ starText o ++ s "-" ++ sh ++ s "+[" ++ help ++ s "]" ++ vc ++ s "' \\") ++
+        (o.longsAll.map fun l => s "'" ++ conflictsText o ++ starText o ++ s "--" ++ l ++ s "=[" ++ help ++ s "]" ++ vc ++ s "' \\")) := by
+    refine List.mem_flatMap.2 ⟨o, List.mem_filter.2 ⟨ho, by simp [ht, hp]⟩, ?_⟩
+    exact List.mem_append_right _ (List.mem_map.2 ⟨l, hl, rfl⟩)
+  have h1 : (s "--" ++ l ++ s "=[" ++ escapeHelp (o.help.getD []) ++ s "]" ++ vcOf o) <:+: writeOptsOf n.args :=
+    List.IsInfix.trans ⟨s "'" ++ conflictsText o ++ starText o, s "' \\", by simp [List.append_assoc]⟩ (infix_joinLines _ _ hm)
+  unfold getArgsOf
+  simp only
+  have := infix_of_nonempty_guard _ _ [s "_arguments \"${_arguments_options[@]}\" : \\"]
+    ((if (writeFlagsOf n.args).isEmpty then [] else [writeFlagsOf n.args]) ++ (if (writePositionalsOf n).isEmpty then [] else [writePositionalsOf n]) ++
+      (if n.subs.isEmpty then [] else [s "\":: :_" ++ uu n.binName ++ s "_commands\" \\", s "\"*::: :->" ++ n.name ++ s "\" \\"]) ++ [s "&& ret=0"]) h1
+  simpa [List.append_assoc] using this
+
+/-- hence the possible values of every value-taking option of a level are in that level's spec -/
+theorem zsh_args_has_opt_values (n : ZNode) (o : ZArg) (ho : o ∈ n.args) (ht : o.takes = true) (hp : o.positional = false)
+    (l : Str) (hl : l ∈ o.longsAll) (v : Str) (hv : valueCompletion o = some v) : v <:+: getArgsOf n :=
+  List.IsInfix.trans (List.IsInfix.trans (zsh_vc_has_completion o v hv)
+    ⟨s "--" ++ l ++ s "=[" ++ escapeHelp (o.help.getD []) ++ s "]", [], by simp [List.append_assoc]⟩)
+    (zsh_args_has_opt_spec n o ho ht hp l hl)
 
 /-- the long name of a flag is in its level's spec -/
 theorem zsh_args_has_flag_long (n : ZNode) (f : ZArg) (hf : f ∈ n.args) (ht : f.takes = false) (hp : f.positional = false)
